@@ -21,7 +21,7 @@ func c16Program() *hs.Program {
 	intT := hs.TInt
 	objT := hs.TObj(hs.Field{Name: "a", T: hs.TInt}, hs.Field{Name: "b", T: hs.TStr})
 	return &hs.Program{
-		Globals: []*hs.Let{{Name: "counter", X: hs.I(0)}, {Name: "done", X: hs.I(0)}, {Name: "ITEMS", X: hs.List(hs.I(10), hs.I(20), hs.I(30))}},
+		Globals: []*hs.Let{{Name: "counter", X: hs.I(0)}, {Name: "done", X: hs.I(0)}, {Name: "first", X: hs.I(0)}, {Name: "second", X: hs.I(0)}, {Name: "ITEMS", X: hs.List(hs.I(10), hs.I(20), hs.I(30))}},
 		Funcs: []*hs.Func{
 			hs.Fn("main", nil, hs.Blk(nil)),
 			hs.Fn("sub", intT, hs.Blk(hs.Bin("-", hs.V("a"), hs.V("b"))), hs.P("a", intT), hs.P("b", intT)),
@@ -76,6 +76,10 @@ func c16Program() *hs.Program {
 				hs.LetS("ob", &hs.ObjLit{Fields: []hs.ObjField{{Name: "a", X: hs.I(1)}}}), hs.ES(hs.Asg("+=", hs.Mem(hs.V("ob"), "a"), hs.V("n"))),
 				hs.LetS("nested", hs.List(hs.List(hs.I(0)))), hs.ES(hs.MCall(hs.Idx(hs.V("nested"), hs.I(0)), "push", hs.V("n"))),
 			), hs.P("n", intT)),
+			// a thread started with several arguments by one call leaves them in globals a later call reads
+			hs.Fn("store2", nil, hs.Blk(nil, hs.ES(hs.Asg("=", hs.V("first"), hs.V("x"))), hs.ES(hs.Asg("=", hs.V("second"), hs.V("y")))), hs.P("x", intT), hs.P("y", intT)),
+			hs.Fn("start2", intT, hs.Blk(hs.I(0), hs.ES(&hs.Spawn{Fn: "store2", Args: []hs.Expr{hs.V("a"), hs.V("b")}})), hs.P("a", intT), hs.P("b", intT)),
+			hs.Fn("diff", intT, hs.Blk(hs.Bin("-", hs.V("first"), hs.V("second")))),
 			// `continue` out of a catch block inside a loop inside a try: the handlers installed when the
 			// call returns are those it was entered with, whichever arguments made the catch block run
 			hs.Fn("skipodd", intT, hs.Blk(hs.V("total"),
@@ -115,7 +119,7 @@ func (c hostCall) String() string {
 var c16Alphabet = []hostCall{
 	{"sub", []int64{1, 0}}, {"sub", []int64{0, 1}}, {"inc", nil}, {"get", nil}, {"early", []int64{0}}, {"early", []int64{2}},
 	{"boom", nil}, {"viacallee", nil}, {"deep", []int64{3}}, {"obj", nil}, {"caught", nil}, {"launch", nil}, {"getdone", nil},
-	{"firstover", []int64{15}}, {"firstover", []int64{5}}, {"grow", nil}, {"fresh", []int64{1}}, {"fresh", []int64{2}}, {"skipodd", []int64{1}}, {"skipodd", []int64{3}},
+	{"firstover", []int64{15}}, {"firstover", []int64{5}}, {"grow", nil}, {"fresh", []int64{1}}, {"fresh", []int64{2}}, {"skipodd", []int64{1}}, {"skipodd", []int64{3}}, {"start2", []int64{7, 2}}, {"diff", nil},
 }
 
 var sp = herrors.Span{}
@@ -126,7 +130,7 @@ func c16Signature(fn string) runtime.FunctionInvocationSignature {
 		return runtime.FunctionInvocationSignatureParam{Ident: n, Type: intT}
 	}
 	switch fn {
-	case "sub":
+	case "sub", "start2":
 		return runtime.FunctionInvocationSignature{Params: []runtime.FunctionInvocationSignatureParam{param("a"), param("b")}, ReturnType: intT}
 	case "early", "deep", "firstover", "fresh", "skipodd":
 		return runtime.FunctionInvocationSignature{Params: []runtime.FunctionInvocationSignatureParam{param("n")}, ReturnType: intT}
